@@ -23,6 +23,7 @@ import (
 func init() {
 	cf := "internal/backends/compiler_wat/compile_func.go"
 	register(&Property{ID: "C16", Run: runC16, Mutants: []Mutant{
+		{Name: "struct equality emits nothing for a type without fields", File: "internal/backends/compiler_wat/wir/value_struct.go", Old: "\tif len(v.typ.fields) == 0 {\n\t\tinsts = append(insts, wat.NewInstConst(wat.I32{}, \"1\"))\n\t}\n", New: "", Expect: "memberless-compare-handled :: aStruct.emitEq"},
 		{Name: "signature key loses the separator between parameters and results", File: "internal/backends/compiler_wat/wir/value_closure.go", Old: "\tn += \"$$\"\n", New: "", Expect: "signature-key-separated"},
 		{Name: "Convert sanity check reads the operand type without Underlying()", File: "internal/ssa/sanity.go", Old: "if _, ok := instr.X.Type().Underlying().(*types.Basic); !ok {", New: "if _, ok := instr.X.Type().(*types.Basic); !ok {", Expect: "sanity-convert-symmetric"},
 		{Name: "array values lose their comparison override", File: "internal/backends/compiler_wat/wir/value_array.go", Old: "func (v *aArray) emitCompare(r Value) (insts []wat.Inst) {\n\tif !v.Type().Equal(r.Type()) {\n\t\tlogger.Fatal(\"v.Type() != r.Type()\")\n\t}\n\treturn v.aStruct.emitCompare(&r.(*aArray).aStruct)\n}\n", New: "", Expect: "embedded-peer-method-overridden :: aArray.emitCompare"},
